@@ -619,7 +619,8 @@ pub fn c17_parts(quick: bool) -> (Vec<EwSpec>, Vec<Scenario>) {
     for (ma, mt) in [(1usize, 1usize), (1, 2)] {
         for r1 in [10usize, 30, 46] {
             let mut cfg = EwCfg::new(3); cfg.max_active = ma; cfg.max_total = mt;
-            let script = vec![at(0, Act::Connect(0)), after_s(0, 3, Act::SDisconnectNow(0)), at(r1, Act::Connect(0)), at(r1 + 7, Act::Connect(1)), at(r1 + 40, Act::CDisconnectNow(0)), at(r1 + 40 + 50, Act::Connect(2))];
+            // (the first connection has exchanged data before it is closed; the returning client sends data of its own: its frames belong to the new connection)
+            let script = vec![at(0, Act::Connect(0)), after_c(0, 1, Act::CSend(0, 0, SendMode::Reliable, 60)), after_s(0, 3, Act::SDisconnectNow(0)), at(r1, Act::Connect(0)), at(r1 + 7, Act::Connect(1)), at(r1 + 10, Act::CSend(0, 0, SendMode::Reliable, 77)), at(r1 + 14, Act::CSend(0, 1, SendMode::Unreliable, 78)), at(r1 + 40, Act::CDisconnectNow(0)), at(r1 + 40 + 50, Act::Connect(2))];
             let mut env = EwEnv::basic(5, r1 + 40 + 50 + 20);
             env.fates = DF_LOSS; env.fate_types = &[0, 1, 2, 4, 5]; env.deltas = &[100, 2000]; env.fair_delta = 500; env.stop_when_done = false;
             scs.push(sc(&format!("C17.same-address-returns-after-server-disconnect.{}", r1), &cfg, script, env, if quick { 1 } else { 2 }, EO_C17 | EO_C08));
